@@ -46,7 +46,7 @@ BOUNDS = {
     "quick": "CAPA: p in {1,2}, min_segment_length 2, max_segment_length in {2,3,n}, n<=4 (n=5 for p=1, M in {2,3}); "
              "MVCAPA with user penalty callables (alpha, beta_1..beta_p symbolic): p=2, n<=3; all savings and "
              "penalty scales symbolic",
-    "thorough": "CAPA: p<=2, m in {2,3}, n<=5 (n=6 for m=3); MVCAPA: p=2 n<=4, p=3 n<=3",
+    "thorough": "CAPA: p=1: m=2 n<=4 (n=5 with M in {2,3}), m=3 n<=5 (n=6 with M=3); p=2 n<=4 (n=5 for m=3, M=3); MVCAPA: p=2, n=2 in six penalty regimes, n=3 in three; named penalty families n<=3 (p=3 runs: see C16)",
 }
 STUBS = ["TableSaving: user-defined saving returning one free real per (start, end, column)",
          "MVCAPA penalties: user callables returning symbolic (alpha, betas)"]
@@ -183,7 +183,8 @@ def make_capa(n, p, m, M, mode="c03"):
         orc = Oracle(n, p, m, min(M, n), ca, [], pa, [])
         _optimality(eng, acc, orc, scores, anoms, n, m, M, info, ok)
         _witness(eng, acc, info, anoms, scores)
-        acc.sample(dict(info, anomalies=anoms, final=str(z3.simplify(scores[-1]))[:160]))
+        acc.sample(dict(info, anomalies=anoms, final=str(z3.simplify(scores[-1]))[:160],
+                        path_condition=[str(c).replace("\n", " ")[:140] for c in eng.pc[: eng.synced][:6]]))
         # O3: ignore_point_anomalies drops exactly the point anomalies (product run, same path)
         det2 = CAPA(TableSaving(p=p), TableSaving(p=p, tag="P"), collective_penalty_scale=SymReal(cs),
                     point_penalty_scale=SymReal(ps), min_segment_length=m, max_segment_length=M,
@@ -430,10 +431,13 @@ def jobs(tier, mode="c03"):
         mv = [(2, 2, 2, 2, "general", "sparse"), (2, 2, 2, 2, "sparse", "general"), (2, 2, 2, 2, "mixed", "dense"),
               (3, 2, 2, 3, "dense", "dense")]
     else:
-        capa = ([(n, 1, 2, M) for n in range(2, 6) for M in sorted({2, 3, 1000})] + [(n, 2, 2, M) for n in range(2, 5) for M in (2, 3, 1000)]
-                + [(n, 1, 3, M) for n in range(3, 7) for M in (3, 4, 1000)] + [(5, 2, 3, 1000)])
+        # measured: n=5, m=2, M=1000 does not finish in 15 min on 16 cores (the repaired DP keeps more starts alive and
+        # the explicit oracle has 89 anomaly sets per prefix) -- outside the thorough tier, stated in BOUNDS
+        capa = ([(n, 1, 2, M) for n in range(2, 5) for M in (2, 3, 1000)] + [(5, 1, 2, 2), (5, 1, 2, 3)]
+                + [(n, 2, 2, M) for n in range(2, 5) for M in (2, 1000)]
+                + [(n, 1, 3, M) for n in range(3, 6) for M in (3, 1000)] + [(6, 1, 3, 3), (5, 2, 3, 3)])
         regs = [("general", "sparse"), ("sparse", "general"), ("mixed", "dense"), ("dense", "dense"), ("sparse", "sparse"), ("general", "general")]
-        mv = [(2, 2, 2, 2, a, b) for a, b in regs] + [(3, 2, 2, M, a, b) for M in (2, 3) for a, b in regs[:5]] + [(2, 3, 2, 2, "general", "sparse")]
+        mv = [(2, 2, 2, 2, a, b) for a, b in regs] + [(3, 2, 2, 3, a, b) for a, b in (("dense", "dense"), ("sparse", "sparse"), ("general", "sparse"))]
     for (n, p, m, M) in capa:
         out.append(Job(Mod, "make_capa", dict(n=n, p=p, m=m, M=M, mode=mode), split=n >= 4))
     for (n, p, m, M, creg, preg) in mv:
